@@ -26,7 +26,7 @@ import (
 
 func init() {
 	register(&Prop{ID: "C18", Run: runC18, Workers: 1, MinNontrivial: 1000, RaceSecondPass: true,
-		Rule:        "one process, 16 goroutines: N direct uuid.NewV4 draws and M built messages (AuthnRequest, LogoutRequest, LogoutResponse, signed and unsigned, across many SP instances, incl. providers copied by value after use) plus a single-goroutine phase in which the random source delivers short reads of 1/5/8/15 bytes with crypto/rand.Reader replaced at start by a pass-through spy that records every read and whether its stack contains uuid.NewV4; oracle: canonical lower-case 8-4-4-4-12 form, version 4, variant 10, message ID = '_' + UUID (an NCName), all identifiers distinct, every UUID's 122 free bits equal a 16-byte read delivered by the spy inside NewV4 (each read consumed exactly once), every free bit set in 45-55% of draws; a case = one batch of draws; non-trivial/distinct counts are identifiers checked; a phase with crypto/rand.Reader failing (after 0/7/15 bytes): no message may be emitted; providers whose signing context was tuned (IdAttribute, Prefix); a phase with a signer that fails on demand (identifiers handed out around failures must be fresh); AuthRedirect fed requests with correlation headers",
+		Rule:        "one process, 16 goroutines: N direct uuid.NewV4 draws and M built messages (AuthnRequest, LogoutRequest, LogoutResponse, signed and unsigned, across many SP instances, incl. providers copied by value after use) plus a single-goroutine phase in which the random source delivers short reads of 1/5/8/15 bytes with crypto/rand.Reader replaced at start by a pass-through spy that records every read and whether its stack contains uuid.NewV4; oracle: canonical lower-case 8-4-4-4-12 form, version 4, variant 10, message ID = '_' + UUID (an NCName), all identifiers distinct, every UUID's 122 free bits equal a 16-byte read delivered by the spy inside NewV4 (each read consumed exactly once), every free bit set in 45-55% of draws; a case = one batch of draws; non-trivial/distinct counts are identifiers checked; a phase with crypto/rand.Reader failing (after 0/7/15 bytes): no message may be emitted; providers whose signing context was tuned (IdAttribute, Prefix); a phase with a signer that fails on demand (identifiers handed out around failures must be fresh); AuthRedirect fed requests with correlation headers; entropy draws sharing a prefix with the previous draw; one provider shared by all goroutines under a non-monotonic clock",
 		Assumptions: []string{"unpredictable is decided as: taken unmodified from crypto/rand.Reader; the quality of the kernel source is trusted", "the bit-balance bound is >30 sigma wide at the quick tier's sample size"}})
 }
 
